@@ -43,10 +43,17 @@
 (*                    was received; the finished operation's deferred      *)
 (*                    delete(active, id) removes the NEW registration, so  *)
 (*                    stop(id) / close() do not cancel the new operation   *)
+(*   AllowLateStart   (OPEN, introduced by /repo 8c78f49) subscribe()      *)
+(*                    closes the connection on a duplicate id but the run  *)
+(*                    loop goes on: a start that is already buffered       *)
+(*                    behind it is registered and executed AFTER close()   *)
+(*                    cancelled "every" operation - nothing cancels it     *)
+(*                    (it outlives the connection when the InitFunc        *)
+(*                    context does not descend from the request context)   *)
 (***************************************************************************)
 EXTENDS Naturals, Sequences, FiniteSets, TLC
 
-CONSTANTS AllowDupStart, AllowSilentInit, AllowDoubleError, AllowRestartRace
+CONSTANTS AllowDupStart, AllowSilentInit, AllowDoubleError, AllowRestartRace, AllowLateStart
 
 \* c: configuration of the connection  [proto : "gws" | "tws", initfn : BOOLEAN, tmo : BOOLEAN]
 \*    tmo = the server may end the connection by a timer of its own
@@ -58,6 +65,7 @@ NewInst(id, kind) ==
    xk |-> "-",                     \* how it exited: "end" | "suberr" | "panic" | "sp" | "cancel"
    em |-> 0,                       \* values returned by the Source
    nx |-> 0, er |-> 0, cp |-> 0,   \* next / error / complete frames the client received
+   late |-> FALSE,                 \* the Source was started after the close callback had fired
    stopped |-> FALSE,              \* the client sent stop(id) after this start
    csn |-> FALSE]                  \* the Source observed ctx.Done
 
@@ -116,7 +124,8 @@ SrcStart_G(w, c, i) ==
   /\ Accepted(w, c)                                            \* NoExecBeforeAck
   /\ (Overlap(w, i) => AllowDupStart)                          \* one executing operation per id
 SrcStart_F(w, i) ==
-  [w EXCEPT !.I[i].src = "run", !.devs = IF Overlap(w, i) THEN w.devs \cup {"dup"} ELSE w.devs]
+  [w EXCEPT !.I[i].src = "run", !.I[i].late = (w.closeCalls > 0),
+            !.devs = IF Overlap(w, i) THEN w.devs \cup {"dup"} ELSE w.devs]
 
 SrcEmit_G(w, i, k) == i \in Insts(w) /\ w.I[i].src = "run" /\ k = w.I[i].em + 1
 SrcEmit_F(w, i) == [w EXCEPT !.I[i].em = w.I[i].em + 1]
@@ -192,13 +201,16 @@ Stall_F(w, what, i) ==
 \* context), CloseOnce second half, nothing of the transport package alive
 Tolerated(w) == DupSeen(w) \/ (AllowRestartRace /\ "restart" \in w.devs)
 StillRunning(w) == {i \in Insts(w) : w.I[i].src = "run"}
+\* an operation that began to execute after close() had already cancelled "every" operation
+LateRunning(w) == {i \in StillRunning(w) : w.I[i].late}
 Final_G(w, c, leaked) ==
-  /\ leaked = 0 \/ Tolerated(w)
-  /\ \A i \in StillRunning(w) : Tolerated(w) /\ OtherOfId(w, i) # {}
+  /\ leaked = 0 \/ Tolerated(w) \/ (AllowLateStart /\ LateRunning(w) # {})
+  /\ \A i \in StillRunning(w) : (Tolerated(w) /\ OtherOfId(w, i) # {}) \/ (AllowLateStart /\ w.I[i].late)
   /\ \/ w.closeCalls = 1
      \/ AllowSilentInit /\ w.first = "initbad" /\ w.closeCalls = 0
 Final_F(w, leaked) ==
-  [w EXCEPT !.devs = w.devs \cup (IF leaked > 0 \/ StillRunning(w) # {} THEN {"outlives"} ELSE {})
+  [w EXCEPT !.devs = w.devs \cup (IF LateRunning(w) # {} THEN {"late-outlives"} ELSE {})
+                            \cup (IF (leaked > 0 /\ LateRunning(w) = {}) \/ StillRunning(w) \ LateRunning(w) # {} THEN {"outlives"} ELSE {})
                             \cup (IF w.closeCalls = 0 THEN {"silentinit"} ELSE {})]
 
 \* ------------------------------------------------ stand-alone state machine --
